@@ -10,6 +10,7 @@ from ..r_codebooks import rule_cx_radical_lists as _rule_cxr
 from ..r_rings import rule_hybridization_table as _rule_hyb
 from ..r_codebooks import rule_not_bond_complement as _rule_notbond
 from ..r_round8 import rule_stereo_gates as _r8_gates
+from ..r_round9 import rule_or_list_one_primitive as _r9_or
 
 LEVEL = 'other'
 
@@ -37,3 +38,4 @@ def run(ck, repo):
     _rule_hyb(ck, repo, 'C08.D4-hybridization')
     _rule_notbond(ck, repo, 'C08.D5-not-bond-complement')
     _r8_gates(ck, repo, 'C08.D6-stereo-gates')
+    _r9_or(ck, repo, 'C08.D7-or-list-one-primitive')
